@@ -117,7 +117,7 @@ def check_case(spec):
     calls = hist.stage_split()[-1] if hist.calls else []
     nt = len(names)
     res.label(f"terminals={nt}", f"holes={len(spec['device']['holes'])}", "screening" if opts.include_screening else "no screening",
-              "adaptive" if opts.adaptive else "fixed dt", f"currents={cur_spec['kind']}", f"field={spec['field']['kind']}",
+              "adaptive" if opts.adaptive else "fixed dt", f"currents={cur_spec['kind']}{'+shift' if cur_spec.get('shift') else ''}", f"field={spec['field']['kind']}",
               f"units={lu}/{opts.field_units}/{cu}")
     if any("." in cur_spec["quantum"] or "e-" in cur_spec["quantum"] for _ in [0]):
         res.label("decimal currents")
@@ -136,13 +136,14 @@ def check_case(spec):
         if s == 0:
             continue
         t_eval = calls[s - 1]["time"]
-        f = build.current_factor(cur_spec, t_eval, opts.solve_time)
+        I_now = build.currents_at(cur_spec, t_eval, opts.solve_time)
+        f = 1.0 if any(v != 0 for v in I_now.values()) else 0.0
         J = fr["supercurrent"] + fr["normal_current"]
         div = orc.my_divergence(mesh, J) * mesh.areas  # net outflow of each cell
         inj = np.zeros(len(mesh.sites))
         per_terminal = {}
         for n in names:
-            I_si = float(exact[n]) * f * orc.CURRENT[cu]
+            I_si = I_now[n] * orc.CURRENT[cu]
             L_si = float(np.sum(blen[member[n]])) * sc["xi_m"]
             Jt = 4 * I_si / (sc["K0"] * L_si)
             share = 0.5 * blen[member[n]] * Jt
@@ -168,7 +169,7 @@ def check_case(spec):
                 continue
             tot = float(np.sum(div[cells]))
             if abs(tot - per_terminal[n]) > 1e-9 * max(1.0, abs(per_terminal[n]), scale):
-                res.fail("C01.terminal_current", f"step {s}: current entering through terminal {n} is {tot:.6e} (dimensionless), requested {per_terminal[n]:.6e} = 4 I/(K0 xi) with I={float(exact[n]) * f} {cu}")
+                res.fail("C01.terminal_current", f"step {s}: current entering through terminal {n} is {tot:.6e} (dimensionless), requested {per_terminal[n]:.6e} = 4 I/(K0 xi) with I={I_now[n]} {cu}")
                 break
         if res.violations:
             break
